@@ -32,6 +32,8 @@ type countingBackend struct {
 	// (nth: how many requests this connection has carried, this one included)
 	ResetAfterExec func(tok string, nth int) bool
 	perConn        map[string]int
+	// DropConns (sabotage backend only) closes every connection accepted so far
+	DropConns func()
 }
 
 func startCountingBackend(w *World) *countingBackend {
@@ -164,6 +166,21 @@ func worldC04(w *World) {
 			}
 			script = append(script, rep)
 		}
+		// an outage of the proxy: a run of failed polls in the middle of the script
+		// (what was listed before it is listed again after it)
+		if t.Rare(1, 3, "outage") {
+			k := []int{2, 9, 13}[t.Choice(3, "outagelen")]
+			at := t.Range(1, len(script), "outageat")
+			var ns [][]string
+			ns = append(ns, script[:at]...)
+			for i := 0; i < k; i++ {
+				ns = append(ns, []string{"!fail"})
+			}
+			ns = append(ns, script[at-1])
+			ns = append(ns, script[at:]...)
+			script = ns
+			w.Probe("proxy_outage_of_many_polls")
+		}
 		// make sure every ID is listed at least once, last
 		script = append(script, ids)
 	}
@@ -205,6 +222,10 @@ func worldC04(w *World) {
 			pmu.Unlock()
 			if d > 0 {
 				time.Sleep(d)
+			}
+			if len(script[n]) == 1 && script[n][0] == "!fail" {
+				w.K.Count("fault.list_5xx")
+				return 503, []byte("injected outage")
 			}
 			return 200, jsonList(script[n])
 		}
@@ -288,7 +309,9 @@ func worldC04(w *World) {
 		listed := map[string]int{}
 		for _, rep := range script {
 			for _, id := range rep {
-				listed[id]++
+				if id != "!fail" {
+					listed[id]++
+				}
 			}
 		}
 		for _, id := range ids {
@@ -350,6 +373,12 @@ func worldC04b(w *World) {
 	if w.Tier == "thorough" {
 		nClients = t.Range(2, 40, "clients")
 	}
+	// a burst: far more client requests than usual are waiting when the first poll arrives
+	burst := !faulty && t.Rare(1, 10, "burst")
+	if burst {
+		nClients = []int{101, 130, 260}[t.Choice(3, "burstsize")]
+		w.Probe("burst_of_waiting_requests")
+	}
 	w.K.ChaosMult = []int{2, 1, 4}[t.Choice(3, "chaos")]
 	w.K.LatencyMenu = [][]time.Duration{{0}, {0, time.Millisecond, 20 * time.Millisecond}}[t.Choice(2, "latprofile")]
 	startProxy(w)
@@ -373,6 +402,9 @@ func worldC04b(w *World) {
 		}
 		w.K.Spawn(fmt.Sprintf("poller%d", p), func() {
 			cl := w.Client()
+			if burst {
+				time.Sleep(2 * time.Second)
+			}
 			for round := 0; ; round++ {
 				mu.Lock()
 				s := stop
@@ -485,6 +517,9 @@ func worldC04b(w *World) {
 		i := i
 		wg.Add(1)
 		delay := []time.Duration{0, 0, time.Millisecond, 10 * time.Millisecond, 31 * time.Second}[t.Choice(5, "clientdelay")]
+		if burst && delay > time.Second {
+			delay = 0
+		}
 		w.K.Spawn(fmt.Sprintf("client%d", i), func() {
 			defer wg.Done()
 			if delay > 0 {
